@@ -65,6 +65,7 @@ def main():
                 res['outcome'] = 'memory'
             except (pe.PyCdlibInvalidISO, pe.PyCdlibInvalidInput, pe.PyCdlibInternalError) as e:
                 res['outcome'] = type(e).__name__
+                res['msg'] = str(e)[:60]
             except RecursionError as e:
                 res['outcome'] = 'fault'
                 res['type'] = 'RecursionError'
